@@ -211,10 +211,10 @@ fn turbulence(
         if let Some(ref mut stitch) = stitch {
             // Update stitch values. Subtracting PerlinN before the multiplication and
             // adding it afterward simplifies to subtracting it once.
-            stitch.width *= 2;
-            stitch.wrap_x = 2 * stitch.wrap_x - PERLIN_N;
-            stitch.height *= 2;
-            stitch.wrap_y = 2 * stitch.wrap_y - PERLIN_N;
+            stitch.width = stitch.width.wrapping_mul(2);
+            stitch.wrap_x = stitch.wrap_x.wrapping_mul(2).wrapping_sub(PERLIN_N);
+            stitch.height = stitch.height.wrapping_mul(2);
+            stitch.wrap_y = stitch.wrap_y.wrapping_mul(2).wrapping_sub(PERLIN_N);
         }
     }
 
@@ -231,31 +231,31 @@ fn noise2(
 ) -> f64 {
     let t = x + PERLIN_N as f64;
     let mut bx0 = t as i32;
-    let mut bx1 = bx0 + 1;
+    let mut bx1 = bx0.wrapping_add(1);
     let rx0 = t - t as i64 as f64;
     let rx1 = rx0 - 1.0;
     let t = y + PERLIN_N as f64;
     let mut by0 = t as i32;
-    let mut by1 = by0 + 1;
+    let mut by1 = by0.wrapping_add(1);
     let ry0 = t - t as i64 as f64;
     let ry1 = ry0 - 1.0;
 
     // If stitching, adjust lattice points accordingly.
     if let Some(info) = stitch_info {
         if bx0 >= info.wrap_x {
-            bx0 -= info.width;
+            bx0 = bx0.wrapping_sub(info.width);
         }
 
         if bx1 >= info.wrap_x {
-            bx1 -= info.width;
+            bx1 = bx1.wrapping_sub(info.width);
         }
 
         if by0 >= info.wrap_y {
-            by0 -= info.height;
+            by0 = by0.wrapping_sub(info.height);
         }
 
         if by1 >= info.wrap_y {
-            by1 -= info.height;
+            by1 = by1.wrapping_sub(info.height);
         }
     }
 
